@@ -205,3 +205,79 @@ func init() {
 			}
 		}})
 }
+
+// ---------------------------------------------------------------------------
+// re-entrant literals: an expression inside the literal calls the function that
+// contains the literal, so the same literal node is evaluated again while an
+// evaluation of it is in progress (the same happens when two workers run one
+// sink). Each evaluation must still produce the text of its own pieces.
+
+var c14RecPieces = []string{"<", ">", " ", "{{n}}", "{{w(n - 1)}}"}
+
+func c14RecRef(tpl []int, n int) string {
+	if n == 0 {
+		return "x"
+	}
+	var b strings.Builder
+	for _, p := range tpl {
+		switch c14RecPieces[p] {
+		case "{{n}}":
+			fmt.Fprintf(&b, "%d", n)
+		case "{{w(n - 1)}}":
+			b.WriteString(c14RecRef(tpl, n-1))
+		default:
+			b.WriteString(c14RecPieces[p])
+		}
+	}
+	return b.String()
+}
+
+func init() {
+	register(&Part{Prop: "C14", Name: "re-entrant-literal", Quick: 1, Thor: 1,
+		Desc: "func w(n) { if n == 0 { return \"x\" } return LITERAL } for every LITERAL of 1-3 (thorough 1-4) pieces over {<, >, space, {{n}}, {{w(n - 1)}}} with at least one recursive piece, called with n = 0..3: the literal node is re-entered while one of its evaluations is in progress; the result must equal the recursive one-pass reference",
+		Rule: "piece sequences x depths; non-trivial = depth >= 1",
+		Run: func(c *Ctx) {
+			maxLen := 3
+			if c.Thorough() {
+				maxLen = 4
+			}
+			var rec func(tpl []int)
+			rec = func(tpl []int) {
+				hasRec := false
+				body := ""
+				for _, p := range tpl {
+					body += c14RecPieces[p]
+					hasRec = hasRec || c14RecPieces[p] == "{{w(n - 1)}}"
+				}
+				if hasRec && c.Mine() {
+					for n := 0; n <= 3; n++ {
+						src := fmt.Sprintf("func w(n) {\n  if n == 0 {\n    return \"x\"\n  }\n  return \"%s\"\n}\nres := w(%d)", body, n)
+						c.Begin(src)
+						out := evalECAL(src, evalOpts{budget: 200000})
+						if out.panicKey != "" || out.budget || out.err != nil {
+							c.Viol("re-entrant literal fails", fmt.Sprintf("%s: %v %v budget=%v", src, out.panicKey, out.err, out.budget), src)
+							break
+						}
+						v, _, _ := out.vs.GetValue("res")
+						want := c14RecRef(tpl, n)
+						if n > 0 {
+							c.Nontrivial()
+						}
+						if fmt.Sprint(v) != want {
+							c.Viol("re-entrant literal: wrong text", fmt.Sprintf("literal \"%s\" inside w(n), w(%d) = %q, expected %q (each evaluation of the literal must produce the text of its own pieces)", body, n, v, want), src)
+							break
+						}
+						c.Outcome("matches-reference")
+					}
+				}
+				if len(tpl) == maxLen {
+					return
+				}
+				for p := range c14RecPieces {
+					rec(append(append([]int{}, tpl...), p))
+				}
+			}
+			rec(nil)
+			c.Sample("func w(n) { if n == 0 { return \"x\" } return \"<{{w(n - 1)}}>\" }  w(2) == \"<<x>>\"")
+		}})
+}
